@@ -1,6 +1,7 @@
 import Bxh.Model.Lifecycle
 import Bxh.Gen.Cascade
 import Bxh.Gen.SubmissionCascade
+import Bxh.Gen.ServiceRepause
 /-!
 # C16 — "an approved freeze or logout of an appchain makes all its services unusable for interchain": the cascade, at the dispatch level
 
@@ -44,5 +45,21 @@ theorem C16_pending_logout_and_update_pause_unconditionally :
     ("UpdateAppchain", "PauseChainService", 0) ∈ Bxh.Gen.appchainSubmissionCascade ∧
     (∃ st, step (tableOf "appchain") "available" "freeze" "available" = some st ∧ isAvailable "appchain" st = true) ∧
     (∀ r ∈ Bxh.Gen.appchainSubmissionCascade, r.1 = "FreezeAppchain" → r.2.1 ≠ "PauseChainService") := by decide
+
+/-- a rejected logout, freeze or activation of a service re-pauses the service when its appchain is not available (fix: 5ad5e72f);
+extracted from the rejected branch of `ServiceManager.Manage` on every run -/
+theorem C16_rejected_service_operations_repause :
+    ("logout", true) ∈ Bxh.Gen.serviceRejectRepause ∧ ("freeze", true) ∈ Bxh.Gen.serviceRejectRepause ∧
+    ("activate", true) ∈ Bxh.Gen.serviceRejectRepause := by decide
+
+/-- **the recorded finding as a kernel-checked fact about the source as it is**: a rejected UPDATE of a service that is `logouting` by then
+(a later logout request paused the update proposal) restores the status the update proposal remembers (`reject` from `logouting`
+leads to `<last>` in the life-cycle table: `available`) and does NOT re-pause the service under an
+unavailable appchain (`known_findings.json`: C16/service-usable-on-unusable-appchain/after-rejected-update; witness
+`corpus/exec/c16-withdrawn-update-revives-service-under-frozen-chain.ops`).  When the code is repaired this theorem stops checking, and
+the finding has to be taken off the list. -/
+theorem C16_rejected_update_does_not_repause_finding :
+    ("update", false) ∈ Bxh.Gen.serviceRejectRepause ∧
+    step (tableOf "service") "logouting" "reject" "available" = some "available" := by decide
 
 end Bxh.Props.C16
